@@ -54,15 +54,17 @@ def undefinedV : PyVal := .opaque "Undefined"
 
 /-! ### `Structure.__eq__` -/
 
-/-- value read back for key `k`: `getattr(x, k)` for a field — when unset: `Undefined` on an
-    `_enable_undefined_value` class unless the field was explicitly assigned `None`
-    (`_none_fields`), else its default, else `None` — and `x.__dict__.get(k)` for an extra
-    attribute (`d.defaults` mentions fields only) -/
+/-- value read back for key `k`: `getattr(x, k)` for a field — when unset: on an
+    `_enable_undefined_value` class `None` if the field was explicitly assigned `None`
+    (`_none_fields`; since 11aa0bc, before that the default) and `Undefined` otherwise; on any other
+    class its default, else `None` — and `x.__dict__.get(k)` for an extra attribute (`d.defaults`
+    mentions fields only) -/
 def getA (d : EqCtx) (x : Inst) (k : String) : PyVal :=
   match lookup k x.attrs with
   | some v => v
   | none =>
-    if x.undef && d.fields.contains k && !x.nones.contains k then undefinedV
+    if x.undef && d.fields.contains k then
+      (if x.nones.contains k then .none else undefinedV)
     else match lookup k d.defaults with
       | some dv => dv
       | none => .none
